@@ -1,96 +1,109 @@
 (** C10 -- parameter expansion substitutes current values, once, and always terminates.
-    Statements only; proofs are in Proofs/. *)
+    Statements only; proofs are in Proofs/.  Since e586def the pass is ONE left-to-right scan:
+    [expand_env : World -> tokens -> tokens] has no fuel and no failure outcome -- termination is
+    structural (a Fixpoint over the characters of the token). *)
 From Coq Require Import List NArith ZArith.
 From Cicada Require Import Base.Chars Base.Tag Model.Expand Model.ExpandRef
-  Proofs.ExpandBasics Proofs.EnvWitness Proofs.EnvProofs.
+  Proofs.ExpandBasics Proofs.EnvProofs Proofs.ExpandOnceProofs Proofs.EnvGate Proofs.SubstProofs Proofs.ExpandInert.
+From Cicada Require Model.Tokenizer.
 Import ListNotations.
 Local Open Scope N_scope.
 
-(** Full statement (false of the faithful model): every word assembled from literal and
-    reference segments expands, within some bounded number of iterations, to the one-pass
-    substitution [den_pieces] -- for every world. *)
+(** The scan is the reference semantics, for every world and EVERY value (values may contain dollars,
+    braces, newlines, references to themselves): one left-to-right pass, inserted text never looked at again. *)
+Theorem C10_scan : forall W ps, wf_pieces ps = true -> expand_env_once W (render_pieces ps) = den_pieces W ps.
+Proof. exact once_is_den. Qed.
+
+(** Full statement: every word of the segment grammar, unquoted or double-quoted, in every world. *)
 Definition C10_full : Prop :=
   forall W ps tg, wf_pieces ps = true -> tg <> TSq -> tg <> TBq ->
-  exists f, expand_env f W [(tg, render_pieces ps)] = Ok [(tg, den_pieces W ps)].
+  expand_env W [(tg, render_pieces ps)] = [(tg, den_pieces W ps)].
 
+(** Still false, for ONE reason: in front of the scan the gate env_in_token exempts tokens shaped like
+    ..='..$NAME..' whatever their quoting.  For the untagged token x='$A' that is right (the user
+    single-quoted $A), for the DOUBLE-quoted token it is not: echo "x='$A'" prints x='$A'. *)
 Theorem C10_refuted : ~ C10_full.
 Proof. exact full_refuted. Qed.
+Theorem C10_refuted_exemption :
+  wf_pieces ps_exempt = true /\ gate_ok ps_exempt = false /\
+  render_pieces ps_exempt = [120; 61; 39; 36; 65; 39] /\ den_pieces W_v ps_exempt = [120; 61; 39; 118; 39] /\
+  expand_env W_v [(TDq, render_pieces ps_exempt)] = [(TDq, render_pieces ps_exempt)].
+Proof. exact exempt_witness. Qed.
 
-(** ... in three ways: the inserted value is rescanned, *)
-Theorem C10_refuted_rescan :
-  wf_pieces ps_A = true /\ den_pieces W_rescan ps_A = [120; 36; 66] /\
-  forall f, (3 <= f)%nat -> expand_env f W_rescan [(TNone, render_pieces ps_A)] = Ok [(TNone, [120; 121])].
-Proof. exact rescan_witness. Qed.
-
-(** a variable that refers to itself never finishes, *)
-Theorem C10_refuted_self_reference : forall f tg, tg <> TSq -> tg <> TBq ->
-  expand_env f W_self [(tg, render_pieces ps_A)] = OutOfFuel.
-Proof. exact self_reference_hangs. Qed.
-
-(** and neither does a word with a newline before a reference, or an unterminated brace. *)
-Theorem C10_refuted_newline : forall W f tg, tg <> TSq -> tg <> TBq ->
-  expand_env f W [(tg, [97; 10; 36; 65])] = OutOfFuel.
-Proof. exact newline_hangs. Qed.
-Theorem C10_refuted_unterminated : forall W f tg, tg <> TSq -> tg <> TBq ->
-  expand_env f W [(tg, [36; 123; 65])] = OutOfFuel.
-Proof. exact unterminated_brace_hangs. Qed.
-
-(** The mechanism of every hang: a fixed point of expand_one_env that env_in_token accepts. *)
-Theorem C10_diverges : forall W t,
-  expand_one_env W t = t -> env_in_token t = true -> forall f, expand_env_loop f W t = OutOfFuel.
-Proof. exact expand_env_loop_diverges. Qed.
-
-(** Unconditional: single-quoted (and backquoted) tokens are never touched. *)
-Theorem C10_single_quoted : forall f W toks,
-  (forall t, In t toks -> fst t = TSq \/ fst t = TBq) -> expand_env f W toks = Ok toks.
-Proof. exact expand_env_quoted. Qed.
-Theorem C10_single_quoted_in_line : forall f W pre s post r,
-  expand_env f W (pre ++ (TSq, s) :: post) = Ok r ->
-  exists pre' post', r = pre' ++ (TSq, s) :: post' /\ length pre' = length pre.
-Proof. exact expand_env_keeps_sq. Qed.
-
-(** Partial statement: outside the recorded classes -- i.e. for every word that is the
-    rendering of a well-formed segment list (each dollar starts a well-formed reference,
-    unbraced names are maximal) whose literal characters and referenced values contain no
-    dollar, no newline, no open paren and not both an equals sign and a backquote / single
-    quote ([c10_dom], a decidable predicate) -- the loop ends within [count_refs + 1]
-    iterations with exactly the one-pass substitution, for every world. *)
-Definition Known_C10 (W : World) (ps : list piece) : Prop := c10_dom W ps = false.
+(** Partial statement, at full strength in everything else: outside the exemption shapes (decidable on
+    the literal characters of the word: an open paren, or an equals sign together with a backquote /
+    single quote) the word becomes exactly the one-pass substitution -- every world, every value. *)
+Definition Known_C10 (ps : list piece) : Prop := gate_ok ps = false.
 Theorem C10_partial : forall W ps tg,
-  ~ Known_C10 W ps -> tg <> TSq -> tg <> TBq ->
-  expand_env (S (count_refs ps)) W [(tg, render_pieces ps)] = Ok [(tg, den_pieces W ps)].
+  ~ Known_C10 ps -> wf_pieces ps = true -> tg <> TSq -> tg <> TBq ->
+  expand_env W [(tg, render_pieces ps)] = [(tg, den_pieces W ps)].
 Proof.
-  intros W ps tg H. apply expand_env_pieces. unfold Known_C10 in H.
-  destruct (c10_dom W ps); [reflexivity | exfalso; apply H; reflexivity].
+  intros W ps tg H. apply partial. unfold Known_C10 in H.
+  destruct (gate_ok ps); [reflexivity | exfalso; apply H; reflexivity].
 Qed.
 
-Check C10_partial : forall W ps tg,
-  ~ Known_C10 W ps -> tg <> TSq -> tg <> TBq ->
-  expand_env (S (count_refs ps)) W [(tg, render_pieces ps)] = Ok [(tg, den_pieces W ps)].
+(** A whole line of words (tag, segment list): quoted ones unchanged, the others substituted, each
+    in its place. *)
+Theorem C10_line : forall W ws, Forall word_in ws -> expand_env W (map word_text ws) = map (word_den W) ws.
+Proof. exact expand_env_line. Qed.
 
-(** Non-vacuity: the word  pre-$A${AB}$A_1.$?  with A = "a.*[b", AB = "p q", A_1 unset meets the
-    hypothesis, has four references, and expands to  pre-a.*[bp q.0 . *)
-Definition ex_W := world_of [([65], [97; 46; 42; 91; 98]); ([65; 66], [112; 32; 113])] [].
+(** Unconditional: single-quoted (and backquoted) tokens are never touched, also inside a longer line. *)
+Theorem C10_single_quoted : forall W toks,
+  (forall t, In t toks -> fst t = TSq \/ fst t = TBq) -> expand_env W toks = toks.
+Proof. exact expand_env_quoted. Qed.
+Theorem C10_single_quoted_in_line : forall W pre s post,
+  expand_env W (pre ++ (TSq, s) :: post) = expand_env W pre ++ (TSq, s) :: expand_env W post.
+Proof. exact expand_env_keeps_sq. Qed.
+
+(** The inputs of the six repaired findings, now computed facts about the model (regressions):
+    a value is not rescanned; a self reference stays; newline, unterminated brace, digit-initial run. *)
+Example C10_values_not_rescanned :
+  expand_env_once (world_of [([65], [120; 36; 66]); ([66], [121])] []) [36; 65] = [120; 36; 66] /\
+  expand_env_once (world_of [([65], [36; 65])] []) [36; 65] = [36; 65] /\
+  expand_env_once (world_of [([65], [118])] []) [97; 10; 36; 65] = [97; 10; 118] /\
+  expand_env_once (world_of [([65], [118])] []) [36; 123; 65] = [36; 123; 65] /\
+  expand_env_once (world_of [([65], [118])] []) [36; 57; 120; 36; 65] = [36; 57; 120; 118].
+Proof. vm_compute. repeat split. Qed.
+
+(** Through ALL passes of do_expansion, composed with the real tokenizer: behind an inert command word,
+    single-quoted tokens and dollar- and backquote-free double-quoted tokens come out unchanged, and a
+    double-quoted word of the grammar comes out as ONE double-quoted token holding the substitution,
+    whatever the values are, provided the RESULT has no backquote and no dollar directly followed by an
+    open paren (that is all the later passes need); used by C01 / C13. *)
+Theorem C10_do_expansion_inert : forall W fuel cmd l l',
+  cmd_ok W cmd -> Forall2 (tok_ok W) l l' ->
+  do_expansion Tokenizer.parse_line W fuel ((TNone, cmd) :: l) = Ok ((TNone, cmd) :: l').
+Proof. exact do_expansion_inert. Qed.
+(** ... whereas an UNTAGGED reference whose value is a pipe character becomes the untagged token | . *)
+Example C10_untagged_value_is_syntax :
+  do_expansion Tokenizer.parse_line (world_of [([65], [124])] []) 5 [(TNone, [101; 99; 104; 111]); (TNone, [36; 65])]
+  = Ok [(TNone, [101; 99; 104; 111]); (TNone, [124])].
+Proof. exact untagged_value_is_syntax. Qed.
+
+Check C10_scan : forall W ps, wf_pieces ps = true -> expand_env_once W (render_pieces ps) = den_pieces W ps.
+Check C10_refuted : ~ C10_full.
+Check C10_partial : forall W ps tg,
+  ~ Known_C10 ps -> wf_pieces ps = true -> tg <> TSq -> tg <> TBq ->
+  expand_env W [(tg, render_pieces ps)] = [(tg, den_pieces W ps)].
+Check C10_single_quoted : forall W toks,
+  (forall t, In t toks -> fst t = TSq \/ fst t = TBq) -> expand_env W toks = toks.
+
+(** Non-vacuity: the word  pre-$A${AB}$A_1.$?  with A = x$B<newline>'(  (dollar, newline, quote, paren in
+    the VALUE), AB = "p q", A_1 unset is in the domain and expands to  pre-x$B<nl>'(p q.0 . *)
+Definition ex_W := world_of [([65], [120; 36; 66; 10; 39; 40]); ([65; 66], [112; 32; 113])] [].
 Definition ex_ps := map PLit [112; 114; 101; 45] ++
   [PRef false [65]; PRef true [65; 66]; PRef false [65; 95; 49]; PLit 46; PRef false [63]].
 Example C10_nonvacuous :
-  c10_dom ex_W ex_ps = true /\ count_refs ex_ps = 4%nat /\
-  expand_env 5 ex_W [(TDq, render_pieces ex_ps)]
-  = Ok [(TDq, [112; 114; 101; 45; 97; 46; 42; 91; 98; 112; 32; 113; 46; 48])].
+  wf_pieces ex_ps = true /\ gate_ok ex_ps = true /\ count_refs ex_ps = 4%nat /\
+  expand_env ex_W [(TDq, render_pieces ex_ps)]
+  = [(TDq, [112; 114; 101; 45; 120; 36; 66; 10; 39; 40; 112; 32; 113; 46; 48])].
 Proof. vm_compute. repeat split. Qed.
 
-Check C10_refuted : ~ C10_full.
-Check C10_diverges : forall W t,
-  expand_one_env W t = t -> env_in_token t = true -> forall f, expand_env_loop f W t = OutOfFuel.
-Check C10_single_quoted : forall f W toks,
-  (forall t, In t toks -> fst t = TSq \/ fst t = TBq) -> expand_env f W toks = Ok toks.
-
-Print Assumptions C10_partial.
+Print Assumptions C10_scan.
 Print Assumptions C10_refuted.
-Print Assumptions C10_refuted_rescan.
-Print Assumptions C10_refuted_self_reference.
-Print Assumptions C10_refuted_newline.
-Print Assumptions C10_refuted_unterminated.
-Print Assumptions C10_diverges.
+Print Assumptions C10_refuted_exemption.
+Print Assumptions C10_partial.
+Print Assumptions C10_line.
 Print Assumptions C10_single_quoted.
 Print Assumptions C10_single_quoted_in_line.
+Print Assumptions C10_do_expansion_inert.
